@@ -159,6 +159,13 @@ MSpec == MInit /\ [][MNext]_mvars
 C15_ResetDiscards ==
   [][l <= N /\ Trace[l].ev = "CliReset" => db'[Trace[l].fan] = [data |-> FALSE, map |-> FALSE]]_mvars
 
+\* C16 at the level of the device: while a fan is being swept or measured no OTHER fan's PWM is written, unless that
+\* other fan is regulating (its control loop runs) or is being handed back - analysis steps that bypass the hook points
+\* (a measurement restarted outside the initialization sequence, ...) still show as register writes
+C16_NoForeignAnalysisWrites ==
+  [][(l <= N /\ Trace[l].ev = "W" /\ Trace[l].reg = "pwm" /\ ~cf.parallel /\ Trace[l].fan \in cf.fans) =>
+       ((\E g \in cf.fans \ {Trace[l].fan} : ana[g]) => ph[Trace[l].fan] \in {"Reg", "Rest1"})]_mvars
+
 Report == l = N + 1 => PrintT(<<"TRACE-DONE", N, "DRIFT", <<>>>>)
 TraceAccepted == TLCGet("stats").diameter = N
 
